@@ -14,9 +14,28 @@ enum Op {
     Set(u64, u32), // delay ms, value
     Cancel(usize), // index of an earlier Set
     WaitPoll(u64), // let this much time pass (ms), then poll until empty
+    // let this much time pass, take the poll handle's events (did it wake up?) but do NOT poll
+    // the timer: a wake-up nobody follows up
+    WaitNoPoll(u64),
 }
 
-fn script() -> Vec<Op> {
+fn script(which: usize) -> Vec<Op> {
+    if which == 1 {
+        // a swallowed wake-up: the timer raises its readiness once per scheduled wake-up, more
+        // time passing does not repeat it; setting a new timeout schedules the next one
+        return vec![
+            Op::Set(500, 1),
+            Op::Set(1500, 2),
+            Op::WaitNoPoll(800),  // t=800: woke (1 is due), nobody polls the timer
+            Op::WaitNoPoll(1000), // t=1800: 2 is due as well, but no wake-up was scheduled
+            Op::Set(500, 3),      // due at 2300: schedules a wake-up
+            Op::WaitNoPoll(800),  // t=2600: woke
+            Op::WaitNoPoll(300),  // t=2900: nothing new
+            Op::WaitPoll(300),    // t=3200: 1, 2, 3 (no new wake-up)
+            Op::Set(500, 4),      // due at 3700
+            Op::WaitPoll(800),    // t=4000: woke, 4
+        ];
+    }
     vec![
         Op::Set(500, 1),
         Op::Set(1500, 2),
@@ -31,7 +50,7 @@ fn script() -> Vec<Op> {
     ]
 }
 
-fn run_script(virtual_mode: bool, times: &[u64]) -> (Vec<(usize, Vec<u32>, bool)>, Vec<u64>, Vec<u64>) {
+fn run_script(which: usize, virtual_mode: bool, times: &[u64]) -> (Vec<(usize, Vec<u32>, bool)>, Vec<u64>, Vec<u64>) {
     clock::set_virtual(virtual_mode);
     let started = std::time::Instant::now();
     let mut measured = Vec::new();
@@ -43,7 +62,7 @@ fn run_script(virtual_mode: bool, times: &[u64]) -> (Vec<(usize, Vec<u32>, bool)
     let mut timeouts = Vec::new();
     let mut out = Vec::new();
     let mut events = Events::with_capacity(8);
-    for (i, op) in script().into_iter().enumerate() {
+    for (i, op) in script(which).into_iter().enumerate() {
         match op {
             Op::Set(ms, v) => {
                 let now = if virtual_mode { clock::now_ns() / 1_000_000 } else { started.elapsed().as_millis() as u64 };
@@ -53,7 +72,7 @@ fn run_script(virtual_mode: bool, times: &[u64]) -> (Vec<(usize, Vec<u32>, bool)
             Op::Cancel(ix) => {
                 let _ = timer.cancel_timeout(&timeouts[ix]);
             }
-            Op::WaitPoll(ms) => {
+            Op::WaitPoll(ms) | Op::WaitNoPoll(ms) => {
                 if virtual_mode {
                     clock::advance_to(times[obs_ix] * 1_000_000);
                 } else {
@@ -64,8 +83,10 @@ fn run_script(virtual_mode: bool, times: &[u64]) -> (Vec<(usize, Vec<u32>, bool)
                 poll.poll(&mut events, Some(Duration::from_millis(0))).unwrap();
                 let woke = !events.is_empty();
                 let mut fired = Vec::new();
-                while let Some(v) = timer.poll() {
-                    fired.push(v);
+                if matches!(op, Op::WaitPoll(_)) {
+                    while let Some(v) = timer.poll() {
+                        fired.push(v);
+                    }
                 }
                 out.push((i, fired, woke));
             }
@@ -77,34 +98,40 @@ fn run_script(virtual_mode: bool, times: &[u64]) -> (Vec<(usize, Vec<u32>, bool)
 
 pub fn run(args: &Args) {
     let mut part = Part::new("C17", "timershim", "seqx", "exploration", &args.tier);
-    part.rule = "one set/cancel/poll script (4 timeouts, one cancelled, 5 observation points, deadlines >= 3 ticks of 100 ms apart) run against the real mio-extras timer in real time and against the virtual-time stand-in; fired values per observation point and whether the poll handle woke up must be equal".into();
+    part.rule = "two set/cancel/poll scripts (4 timeouts, one cancelled, 5 observation points; and 4 timeouts with wake-ups that nobody follows up with a poll of the timer, 6 observation points; deadlines >= 3 ticks of 100 ms apart) run against the real mio-extras timer in real time and against the virtual-time stand-in; fired values per observation point and whether the poll handle woke up must be equal".into();
     // real time first; the stand-in is then observed at exactly the instants measured there.
     // An observation that landed within 160 ms of a deadline (tick granularity + scheduling
     // jitter of a busy machine) makes the attempt inconclusive: retry, never alarm.
-    let mut conclusive = false;
-    for attempt in 0..2 {
-        let (real, times, deadlines) = run_script(false, &[]);
-        let close = times.iter().any(|t| deadlines.iter().any(|d| (*t as i64 - *d as i64).abs() < 160));
-        part.evaluations += 1;
-        if close {
-            part.outcome("inconclusive-attempt");
-            continue;
+    let mut all_conclusive = true;
+    for which in 0..2usize {
+        let mut conclusive = false;
+        for attempt in 0..2 {
+            let (real, times, deadlines) = run_script(which, false, &[]);
+            let close = times.iter().any(|t| deadlines.iter().any(|d| (*t as i64 - *d as i64).abs() < 160));
+            part.evaluations += 1;
+            if close {
+                part.outcome("inconclusive-attempt");
+                continue;
+            }
+            let (virt, _, _) = run_script(which, true, &times);
+            part.evaluations += 1;
+            part.sample(json!({"script": which, "attempt": attempt, "observed_at_ms": times, "real": format!("{:?}", real), "virtual": format!("{:?}", virt)}));
+            // fired values at every observation point; whether the poll handle woke up wherever
+            // something fired and at every point of the swallowed-wake-up script
+            let same = real.len() == virt.len() && real.iter().zip(virt.iter()).all(|(a, b)| a.1 == b.1 && ((a.1.is_empty() && which == 0) || a.2 == b.2));
+            if !same {
+                part.violation("timershim:differs", format!("script {} observed at {:?} ms: real timer {:?} vs stand-in {:?}", which, times, real, virt), json!({"engine":"seqx","check":"timershim"}));
+            }
+            conclusive = true;
+            break;
         }
-        let (virt, _, _) = run_script(true, &times);
-        part.evaluations += 1;
-        part.distinct_nontrivial = 2;
-        part.sample(json!({"attempt": attempt, "observed_at_ms": times, "real": format!("{:?}", real), "virtual": format!("{:?}", virt)}));
-        let same = real.len() == virt.len() && real.iter().zip(virt.iter()).all(|(a, b)| a.1 == b.1 && (a.1.is_empty() || a.2 == b.2));
-        if !same {
-            part.violation("timershim:differs", format!("observed at {:?} ms: real timer {:?} vs stand-in {:?}", times, real, virt), json!({"engine":"seqx","check":"timershim"}));
-        }
-        part.extra.insert("conformance".into(), json!("conclusive"));
-        conclusive = true;
-        break;
+        all_conclusive &= conclusive;
     }
-    if !conclusive {
-        part.distinct_nontrivial = 2;
-        part.extra.insert("conformance".into(), json!("inconclusive: the machine was too busy to observe the real timer away from its deadlines (2 attempts); not a verdict"));
+    part.distinct_nontrivial = 2;
+    if all_conclusive {
+        part.extra.insert("conformance".into(), json!("conclusive"));
+    } else {
+        part.extra.insert("conformance".into(), json!("inconclusive: the machine was too busy to observe the real timer away from its deadlines (2 attempts per script); not a verdict"));
         part.sample(json!({"inconclusive": true}));
     }
     part.finish(args.out.as_deref());
